@@ -4,6 +4,7 @@ CONSTANTS
   Fuel = 5
   Quarantine = {}
   Only = {}
+  Offsets = {0}
   Allow = {"progconf:elems", "progconf:elems2", "progconf:fbtask", "progconf:sink", "progconf:with", "config:task", "config:prog2", "pcsink:direct", "pcsrc:name", "pcsrc:direct", "q:retain", "q:non_retain"}
   Emit = TRUE
 INVARIANTS OneValue NothingDropped Terminates PrecedenceShape EmitReplay
